@@ -1,4 +1,5 @@
 import PortusModel.Props.C18
+import PortusModel.Props.C18Own
 #print axioms Portus.C18.stop_poll_ends_reception
 #print axioms Portus.C18.result_ok_iff_stopped
 #print axioms Portus.C18.run_ignores_after_stop
@@ -6,3 +7,7 @@ import PortusModel.Props.C18
 #print axioms Portus.C18.dispatch_after_stop_bounded
 #print axioms Portus.C18.nothing_after_shutdown
 #print axioms Portus.C16.run_no_panic
+#print axioms Portus.C18.stop_handle_balanced
+#print axioms Portus.C18.close_called_once
+#print axioms Portus.C18.close_exactly_once_under_discipline
+#print axioms Portus.C18.dead_handle_cannot_send
